@@ -62,6 +62,8 @@ type Exec struct {
 	usedContracts map[string]bool
 	replayCtx     *ReplayCtx
 	curRets       []*SVal
+	// loop discovery: header -> heap name -> store roots (nil entry = unknown writer)
+	loopRoots map[*ssa.BasicBlock]map[string][]ssa.Value
 }
 
 type Frame struct {
@@ -88,6 +90,7 @@ type Frame struct {
 	dedupe   map[string]bool
 	defers   []*ssa.Defer
 	loopOrd  map[*ssa.BasicBlock]int
+	storeRoot ssa.Value
 }
 
 type retInfo struct {
@@ -133,6 +136,14 @@ func (fr *Frame) heapSet(name, sort, term string) {
 	if fr.x.discover {
 		for _, l := range fr.x.curLoops {
 			fr.x.loopMods[l][name] = true
+			root := fr.storeRoot
+			if root != nil && l.Parent() != fr.fn {
+				root = nil
+			}
+			if fr.x.loopRoots[l] == nil {
+				fr.x.loopRoots[l] = map[string][]ssa.Value{}
+			}
+			fr.x.loopRoots[l][name] = append(fr.x.loopRoots[l][name], root)
 		}
 	}
 }
